@@ -65,6 +65,9 @@ def install(M):
         opt + "take": X.opt_take,
         opt + "replace": X.opt_replace,
         "std::iter::Iterator::take": X.it_take,
+        "std::iter::Iterator::zip": X.it_zip,
+        "core::slice::<impl [T]>::iter_mut": X.sl_iter_mut,
+        "core::str::<impl str>::bytes": X.str_bytes,
         "std::iter::Iterator::take_while": X.it_take_while,
         "std::iter::Iterator::collect": M.m_from_iter,
         "std::array::<impl std::convert::TryFrom<&[T]> for [T; N]>::try_from": X.arr_try_from,
@@ -608,6 +611,40 @@ class Ext:
                 out.append((s, "val", IterV(("bytes", SliceV(sl.base, sl.start, sl.start + lim)), it.pos)))
             else:
                 out.append((s, "val", IterV(("take", sq, lim), it.pos)))
+        return out
+
+    def sl_iter_mut(self, e, st, a):
+        sl = self._slice(st, a[0])
+        if not isinstance(sl, SliceV):
+            return None
+        return [(st, "val", IterV(("bytes_mut", sl)))]
+
+    def str_bytes(self, e, st, a):
+        sl = self._slice(st, a[0])
+        if not isinstance(sl, SliceV):
+            return None
+        return [(st, "val", IterV(("bytes", SliceV(sl.base, sl.start, sl.end))))]
+
+    def it_zip(self, e, st, a):
+        ia = self._iter(st, a[0])
+        ib = self._iter(st, a[1])
+        if ib is None:
+            # the argument is IntoIterator: a slice / collection / array
+            r = self.M.m_into_iter(e, st, [a[1]])
+            if r and len(r) == 1 and isinstance(r[0][2], IterV):
+                ib = r[0][2]
+        if ia is None or ib is None:
+            return None
+        L = self.I.loops
+        na, nb = L.count_of(st, ia.seq), L.count_of(st, ib.seq)
+        if na is None or nb is None:
+            return None
+        ra, rb = na - ia.pos, nb - ib.pos
+        out = []
+        for s in self.I.assume(st, flit(le(ra, rb))):
+            out.append((s, "val", IterV(("zip", ia.seq, ia.pos, ib.seq, ib.pos, ra))))
+        for s in self.I.assume(st, flit(gt(ra, rb))):
+            out.append((s, "val", IterV(("zip", ia.seq, ia.pos, ib.seq, ib.pos, rb))))
         return out
 
     def it_take_while(self, e, st, a):
